@@ -500,7 +500,7 @@ Definition parse_target (a : ascii) : option target :=
   if Ascii.eqb a "D" then Some Dest else if Ascii.eqb a "T" then Some Temp else None.
 Definition parse_cond (a : ascii) : option cond :=
   if Ascii.eqb a "A" then Some Always else if Ascii.eqb a "O" then Some IfOk
-  else if Ascii.eqb a "E" then Some IfErr else None.
+  else if Ascii.eqb a "E" then Some IfErr else if Ascii.eqb a "P" then Some IfTemp else None.
 Definition parse_sec (a : ascii) : option sec :=
   if Ascii.eqb a "M" then Some SMessage else if Ascii.eqb a "T" then Some STitle
   else if Ascii.eqb a "C" then Some SCells else if Ascii.eqb a "S" then Some SSurfaces
@@ -526,6 +526,7 @@ Definition parse_step (s : string) : option step :=
   | "HW" => Some HandleWarnings
   | String "O" (String a EmptyString) => option_map OpenW (parse_target a)
   | String "R" (String "P" (String c EmptyString)) => option_map Replace (parse_cond c)
+  | String "F" (String "G" (String c EmptyString)) => option_map Forget (parse_cond c)
   | String "R" (String "M" (String c (String t EmptyString))) =>
       match parse_cond c, parse_target t with
       | Some c, Some t => Some (Remove c t)
@@ -547,12 +548,12 @@ Definition parse_part (s : string) : option part :=
   end.
 Definition parse_writer (s : string) : option writer :=
   match split_lin "/"%char s with
-  | [tm; op; bd; ex; po] =>
+  | [tm; op; bd; ex; fi; po] =>
       match map_opt parse_part (list_of ","%char tm), map_opt parse_step (list_of ","%char op),
             map_opt parse_step (list_of ","%char bd), map_opt parse_step (list_of ","%char ex),
-            map_opt parse_step (list_of ","%char po) with
-      | Some a, Some b, Some c, Some d, Some e => Some (mkwriter a b c d e)
-      | _, _, _, _, _ => None
+            map_opt parse_step (list_of ","%char fi), map_opt parse_step (list_of ","%char po) with
+      | Some a, Some b, Some c, Some d, Some f, Some e => Some (mkwriter a b c d f e)
+      | _, _, _, _, _, _ => None
       end
   | _ => None
   end.
@@ -653,7 +654,7 @@ Fixpoint first_bad {A} (f : A -> bool) (l : list A) (i : nat) : option (nat * A)
   | x :: r => if f x then first_bad f r (S i) else Some (i, x)
   end.
 Definition show_target (t : target) := match t with Dest => "D" | Temp => "T" end.
-Definition show_cond (c : cond) := match c with Always => "A" | IfOk => "O" | IfErr => "E" end.
+Definition show_cond (c : cond) := match c with Always => "A" | IfOk => "O" | IfErr => "E" | IfTemp => "P" end.
 Definition show_sec (s : sec) := match s with SMessage => "M" | STitle => "T" | SCells => "C" | SSurfaces => "S" | SData => "D" end.
 Definition show_ostep (o : ostep) := match o with Format => "F" | Warn => "N" | WriteLines => "W" end.
 Definition show_step (s : step) : string :=
@@ -662,6 +663,7 @@ Definition show_step (s : step) : string :=
   | Loop sc b => "L" ++ show_sec sc ++ String.concat "" (map show_ostep b)
   | Children => "CH" | Blank => "BL" | Close => "CL"
   | Replace c => "RP" ++ show_cond c | Remove c t => "RM" ++ show_cond c ++ show_target t
+  | Forget c => "FG" ++ show_cond c
   | HandleWarnings => "HW"
   end.
 Definition show_piece (p : piece) : string :=
@@ -677,18 +679,22 @@ Definition diagnose (w : writer) : string :=
     "dest_only_written_by_replace=" ++ show_bool (dest_only_written_by_replace w) ++ ":"
        ++ witness_steps no_dest_step (all_steps w);
     "replace_only_on_success=" ++ show_bool (replace_only_on_success w) ++ ":"
-       ++ witness_steps (fun s => negb (is_replace s)) (w_open w ++ w_body w ++ w_post w) ++ ";"
+       ++ witness_steps (fun s => negb (is_replace s)) (w_open w ++ w_body w ++ w_final w ++ w_post w) ++ ";"
        ++ witness_steps replace_guarded (w_exit w);
-    "nothing_fails_after_replace=" ++ show_bool (nothing_fails_after_replace w) ++ ":"
-       ++ match after_first_replace (w_exit w) with None => "-" | Some r => witness_steps quiet_when_ok r end;
     "post_only_warnings=" ++ show_bool (post_only_warnings w) ++ ":" ++ witness_steps is_post_step (w_post w);
+    "writes_go_to_temp_then_replace=" ++ show_bool (writes_go_to_temp_then_replace w) ++ ":-";
     "opens_temp_after_guards=" ++ show_bool (opens_temp_after_guards w) ++ ":after-guards="
        ++ show_list show_step (drop_guards (w_open w));
-    "temp_removed_on_failure=" ++ show_bool (temp_removed_on_failure w) ++ ":exit=" ++ show_list show_step (w_exit w);
+    "temp_removed_on_failure=" ++ show_bool (temp_removed_on_failure w) ++ ":exit=" ++ show_list show_step (w_exit w)
+       ++ ";finally=" ++ show_list show_step (w_final w);
     "body_blocks_in_order=" ++ show_bool (body_blocks_in_order w) ++ ":pieces=" ++ show_list show_piece (pieces (w_body w));
     "children_before_terminator=" ++ show_bool (children_before_terminator w) ++ ":after-data="
        ++ match after_data (pieces (w_body w)) with None => "none" | Some r => show_list show_piece r end;
-    "temp_name_distinct=" ++ show_bool (temp_name_distinct w) ++ ":parts=" ++ show_nat (List.length (w_temp w))
+    "temp_name_distinct=" ++ show_bool (temp_name_distinct w) ++ ":parts=" ++ show_nat (List.length (w_temp w));
+    "writer_ok=" ++ show_bool (writer_ok w) ++ ":-";
+    "cleanup_total=" ++ show_bool (cleanup_total w) ++ ":-";
+    "all_formats_precede_open=" ++ show_bool (all_formats_precede_open w) ++ ":"
+       ++ witness_steps (fun s => negb (is_loop s)) (w_body w)
   ].
 
 (* requests
